@@ -247,8 +247,8 @@ def o_c15_post(w, args):
             if m != want:
                 return '[relabel/mapping] returned mapping %s, expected %s' % (m, want)
         elif kind == 'count':
-            if set(m) != set(before) or len(set(m.values())) != len(m):
-                return '[relabel/mapping] a counting renaming must rename every simplex once: %s' % m
+            if not set(m) <= set(before) or len(set(m.values())) != len(m):
+                return '[relabel/mapping] a counting renaming gives every simplex its own number: %s' % m
         f = lambda n: m.get(n, n)
         return _carried(c, before, f, 'relabel', st)
     if kw == 'relabel1':
